@@ -27,6 +27,9 @@ CONSTANTS BufferSize, U16Max,   \* structural constants (512 and 65535 in the co
 (* and the environment fields                                              *)
 (*   dist     target distance, 0 = unreachable                             *)
 (*   pathLen  routers 1..pathLen answer; beyond: silence (unless target)   *)
+(*   changeAt dist2 pathLen2 (optional)  from round changeAt > 0 on the    *)
+(*            route is another one: target distance dist2, routers          *)
+(*            1..pathLen2 answer                                            *)
 (*   sendOut  subset of {"ok","failed","fatal","inuse"}                    *)
 (*   recvFaults BOOLEAN                                                    *)
 (*   noise    subset of {"dup","late","foreign","zero","never"}            *)
@@ -44,9 +47,16 @@ VARIABLES c,        \* configuration (never changes)
 vars == <<c, s, pc, now, flight, h, pub, act>>
 
 Tick == IF c.readTimeout = 0 THEN 1 ELSE c.readTimeout
-IsTarget(t) == c.dist > 0 /\ t >= c.dist
-Answers(t)  == IsTarget(t) \/ t <= c.pathLen
-Host(t)     == IF IsTarget(t) THEN 1000 ELSE t
+\* the route in force in round rn (a response belongs to the route of the round its probe was sent in)
+HasChange     == "changeAt" \in DOMAIN c /\ c.changeAt > 0
+Changed(rn)   == HasChange /\ rn >= c.changeAt
+DistR(rn)     == IF Changed(rn) THEN c.dist2 ELSE c.dist
+PathLenR(rn)  == IF Changed(rn) THEN c.pathLen2 ELSE c.pathLen
+IsTargetR(rn, t) == DistR(rn) > 0 /\ t >= DistR(rn)
+HostR(rn, t)  == IF IsTargetR(rn, t) THEN 1000 ELSE (IF Changed(rn) THEN 100 + t ELSE t)
+IsTarget(t) == IsTargetR(s.round, t)
+Answers(t)  == IsTarget(t) \/ t <= PathLenR(s.round)
+Host(t)     == HostR(s.round, t)
 
 NoPub == [valid |-> FALSE]
 H0 == [ wire |-> <<>>, ans |-> {}, farthest |-> 0, tgt |-> FALSE, lastRecv |-> -1,
@@ -117,7 +127,7 @@ NoiseDelays == 1..Tick     \* injected packets cost time, otherwise a flood coul
 RecvGenuine(r, d) ==
     /\ pc = "recv" /\ r \in flight /\ r.round = s.round /\ ~r.delivered /\ d \in Delays
     /\ now' = now + d
-    /\ s' = Ops!RecvResponse(C, s, IF c.proto = "icmp" THEN c.traceId ELSE 0, r.seq, Host(r.ttl), IsTarget(r.ttl), now')
+    /\ s' = Ops!RecvResponse(C, s, IF c.proto = "icmp" THEN c.traceId ELSE 0, r.seq, HostR(r.round, r.ttl), IsTargetR(r.round, r.ttl), now')
     /\ flight' = (flight \ {r}) \cup (IF "dup" \in c.noise THEN {[r EXCEPT !.delivered = TRUE]} ELSE {})
     /\ h' = [h EXCEPT !.ans = @ \cup {[seq |-> r.seq, ttl |-> r.ttl, host |-> Host(r.ttl), at |-> now']},
                       !.farthest = IF r.ttl > @ THEN r.ttl ELSE @,
@@ -129,14 +139,14 @@ RecvGenuine(r, d) ==
 RecvDup(r, d) ==
     /\ pc = "recv" /\ "dup" \in c.noise /\ r \in flight /\ r.round = s.round /\ r.delivered /\ d \in Delays
     /\ now' = now + d
-    /\ s' = Ops!RecvResponse(C, s, IF c.proto = "icmp" THEN c.traceId ELSE 0, r.seq, Host(r.ttl), IsTarget(r.ttl), now')
+    /\ s' = Ops!RecvResponse(C, s, IF c.proto = "icmp" THEN c.traceId ELSE 0, r.seq, HostR(r.round, r.ttl), IsTargetR(r.round, r.ttl), now')
     /\ flight' = flight \ {r}
     /\ pc' = "update" /\ act' = "RecvDup" /\ UNCHANGED <<c, h>>
 
 RecvLate(r, d) ==
     /\ pc = "recv" /\ "late" \in c.noise /\ r \in flight /\ r.round < s.round /\ d \in Delays
     /\ now' = now + d
-    /\ s' = Ops!RecvResponse(C, s, IF c.proto = "icmp" THEN c.traceId ELSE 0, r.seq, Host(r.ttl), IsTarget(r.ttl), now')
+    /\ s' = Ops!RecvResponse(C, s, IF c.proto = "icmp" THEN c.traceId ELSE 0, r.seq, HostR(r.round, r.ttl), IsTargetR(r.round, r.ttl), now')
     /\ flight' = flight \ {r}
     /\ pc' = "update" /\ act' = "RecvLate" /\ UNCHANGED <<c, h>>
 
@@ -192,7 +202,7 @@ PublishAdvance ==
            p1 == [ valid |-> TRUE, idx |-> h.pubs, round |-> s.round, probes |-> Ops!Probes(s),
                     largest |-> Ops!LargestTtl(C, s), reason |-> Ops!Reason(s), at |-> now,
                     wire |-> h.wire, ans |-> h.ans, tgt |-> h.tgt, lastRecv |-> h.lastRecv,
-                    estD |-> (h.estD \/ \E a \in h.ans : a.ttl = c.dist /\ c.dist > 0),
+                    estD |-> (h.estD \/ \E a \in h.ans : a.ttl = DistR(s.round) /\ DistR(s.round) > 0),
                     everAns |-> h.everAns ]
        IN /\ s' = s1
           /\ pub' = p1
@@ -309,6 +319,14 @@ RoundWellFormed == pub.valid =>
     /\ pub.largest >= 0 /\ pub.largest <= c.maxTtl
     /\ \A t \in ProbedTtls(pub) : t >= c.firstTtl /\ t <= c.maxTtl
     /\ pub.largest > 0 => pub.largest >= c.firstTtl
-StablePathLength == pub.valid /\ pub.estD => pub.largest = c.dist
+StablePathLength == pub.valid /\ ~HasChange /\ pub.estD => pub.largest = c.dist
+\* a round in which the target answered at its true distance reports that distance - also right after the route
+\* changed to a longer or a shorter one
+TargetDistanceReported ==
+    pub.valid /\ DistR(pub.round) > 0 /\ (\E a \in pub.ans : a.ttl = DistR(pub.round)) => pub.largest = DistR(pub.round)
+\* the distance the tracer holds to be established is never at or below a hop that answered as a router in this
+\* round: that is what lets probing continue beyond a stale distance after the path has grown
+EstablishedBeyondRouters ==
+    s.tt # 0 => \A a \in h.ans : IsTarget(a.ttl) \/ a.ttl < s.tt
 NothingAnswered  == pub.valid /\ ~pub.everAns => pub.largest = 0
 =============================================================================
